@@ -193,7 +193,8 @@ func c17Page(rt *rapid.T) (files map[string]string, page string, markers []strin
 	for i := 0; i < k; i++ {
 		m := fmt.Sprintf("MARK-%d-%s", i, rapid.StringMatching("[a-z]{4}").Draw(rt, "mark"))
 		markers = append(markers, m)
-		b.WriteString("<p>" + m + "</p>\n")
+		// (percent signs: what is written to the response is data, never a format)
+		b.WriteString("<p style=\"width: 100%;\">" + m + " 50% off %d %s %%</p>\n")
 	}
 	fault := rapid.SampledFrom([]string{"{{ zzMissing }}", "{{ 1 / 0 }}", "{{ name + 1 }}", "{{ name.nosuchfn() }}", "{{ {a: 1}.zz }}"}).Draw(rt, "fault")
 	shape := rapid.SampledFrom([]string{"ok", "ok-layout", "top", "in-loop", "in-layout", "in-component", "in-slot", "missing"}).Draw(rt, "shape")
@@ -241,7 +242,7 @@ func TestC17_Configurations(t *testing.T) {
 			// character (also ones that occur in the extension), with or without dots
 			cs.ErrorPage = rapid.SampledFrom([]string{"errors/custom", "fault", "errors/show", "e", "w", "errors/internal.t", "err.tw", "x/y/z/oops", "500", "tw"}).Draw(rt, "customName")
 			// the error page is rendered on its own: names of the failed page's data mean nothing in it
-			files[cs.ErrorPage] = rapid.SampledFrom([]string{"<h1>CUSTOM-ERROR-PAGE</h1>{{ 1 + 1 }}", "<h1>CUSTOM-ERROR-PAGE</h1>{{ name = 404 }}{{ name + 1 }}", "{{ title = 5; name = [1] }}<h1>CUSTOM-ERROR-PAGE</h1>"}).Draw(rt, "customBody")
+			files[cs.ErrorPage] = rapid.SampledFrom([]string{"<h1>CUSTOM-ERROR-PAGE</h1>{{ 1 + 1 }}", "<h1 style=\"width: 100%;\">CUSTOM-ERROR-PAGE</h1>{{ name = 404 }}{{ name + 1 }} (20%) %s %d %%", "{{ title = 5; name = [1] }}<h1>CUSTOM-ERROR-PAGE</h1>100%"}).Draw(rt, "customBody")
 		case "missing":
 			cs.ErrorPage = "errors/nosuch"
 		case "failing":
